@@ -4,6 +4,7 @@ package sim
 // change it announces is stored, and any listener can veto.
 
 import (
+	"cosmossdk.io/collections"
 	"fmt"
 	"math/big"
 	"strings"
@@ -279,5 +280,20 @@ func (e *execState) checkHooksBlock(bo *blockObs, br BlockResult, fx BlockEffect
 			continue
 		}
 		e.verifyOp(bo, what, o.Idx, o.Hooks, e.expForMsg(bo, tx))
+		// the bidder a bid hook announces is the bidder the record carries, letter for letter (the
+		// comparison above identifies accounts; a listener that keys by the string it is given must be
+		// given the string the module stores)
+		for _, c := range o.Hooks {
+			if c.Raw == "" || (c.Method != "BeforeBidPlaced" && c.Method != "BeforeBidModified") {
+				continue
+			}
+			var aid, bid uint64
+			if n, _ := fmt.Sscanf(c.Args, "%d|%d|", &aid, &bid); n != 2 {
+				continue
+			}
+			if stored, err := e.node.App.FundraisingKeeper.Bid.Get(e.node.ReadCtx(), collections.Join(aid, bid)); err == nil && stored.Bidder != c.Raw {
+				e.hv(bo, "hook.values", c.Method+":spelling", fmt.Sprintf("%s: %s announced the bidder as %q, the bid is recorded for %q", what, c.Method, c.Raw, stored.Bidder), o.Idx)
+			}
+		}
 	}
 }
